@@ -140,12 +140,11 @@ func runLifecycle(e *core.Env) {
 	rec.Rule("lifecycle: one case = (relay kind via server protocol S: NAT relay for socks5/none, session relay for SS2022; upstream protocol C; batch mode; lifecycle phase from {evict-and-restart, stop-idle, stop-established, stop-queued (bursts in flight), stop-double, stop-init-resolver (initialiser held in name resolution), stop-hook-rearm / stop-hook-swap (goroutine held at a verif hook while Stop runs), init-reject, init-upstream-refused}; sessions 1..24); after Run returns: goroutine count and socket count back to the pre-start baseline, listener port reusable, virtual time consumed by Stop < natTimeout/2; class = (S, C, batch, phase, hook reached)")
 	type job struct{ s sched }
 	var jobs []job
-	// multi-user SS2022 servers are left out here: their credential store makes the service call signal.Notify,
-	// after which the process-wide fake clock can no longer be advanced (see svx.ClockPoisoned); the session
-	// relay they use is the same one the single-user SS2022 servers exercise.
-	pairs := [][2]string{{"socks5", "direct"}, {"ss128", "direct"}, {"none", "ss256"}, {"ss256", "socks5"}}
+	// multi-user SS2022 servers: their credential store would make the service register a SIGUSR1 handler, after which
+	// the fake clock can no longer advance; svx.Start leaves that registration out through a verif hook.
+	pairs := [][2]string{{"socks5", "direct"}, {"ss128", "direct"}, {"none", "ss256"}, {"ss256", "socks5"}, {"ssmulti", "direct"}}
 	if !e.Quick() {
-		pairs = append(pairs, [2]string{"ss256", "none"}, [2]string{"socks5", "ss128"}, [2]string{"none", "direct"}, [2]string{"ss128", "ss256"})
+		pairs = append(pairs, [2]string{"ss256", "none"}, [2]string{"socks5", "ss128"}, [2]string{"none", "direct"}, [2]string{"ss128", "ss256"}, [2]string{"socks5", "ssmulti"}, [2]string{"ssmulti", "ssmulti"})
 	}
 	reps := e.N(1, 6)
 	for _, p := range pairs {
